@@ -7,6 +7,8 @@ T="$1"; RUNS="$2"; MAXLEN="${3:-1024}"
 SEED="${VERIF_SEED:-1}"
 cd /verif/fuzz || exit 2
 export CARGO_NET_OFFLINE=true
+# leaks of the harness itself (e.g. constants of bytecode that is only verified) are not findings
+export ASAN_OPTIONS=detect_leaks=0
 CORPUS=/verif/work/fuzz-corpus/$T-$$
 rm -rf "$CORPUS"; mkdir -p "$CORPUS" /verif/work
 # seeds: the repository's examples (text targets) — the structured targets start from an empty corpus plus a few random tapes
@@ -15,8 +17,10 @@ case "$T" in
   *) for i in 1 2 3 4 5 6 7 8; do head -c $((64*i)) /dev/zero | tr '\0' "\\$(printf '%03o' $((i*29)))" > "$CORPUS/seed$i"; done ;;
 esac
 LOG=/verif/work/fuzz-$T.log
-if ! cargo +nightly fuzz build --fuzz-dir . "$T" >"$LOG.build" 2>&1; then tail -20 "$LOG.build" >&2; echo "run_fuzz: build failed" >&2; exit 2; fi
-cargo +nightly fuzz run --fuzz-dir . "$T" "$CORPUS" -- -runs="$RUNS" -seed="$SEED" -max_len="$MAXLEN" -len_control=0 -timeout=60 -detect_leaks=0 -rss_limit_mb=8000 -artifact_prefix=/verif/work/fuzz-artifact-$T- >"$LOG" 2>&1
+# the structured target keeps memory safety observable through the hooks (shadow heap, probes) and is an order of magnitude faster without ASan
+SAN=""; [ "$T" = fz_prog ] && SAN="--sanitizer none"
+if ! cargo +nightly fuzz build --fuzz-dir . $SAN "$T" >"$LOG.build" 2>&1; then tail -20 "$LOG.build" >&2; echo "run_fuzz: build failed" >&2; exit 2; fi
+cargo +nightly fuzz run --fuzz-dir . $SAN "$T" "$CORPUS" -- -runs="$RUNS" -seed="$SEED" -max_len="$MAXLEN" -len_control=0 -timeout=60 -detect_leaks=0 -rss_limit_mb=8000 -artifact_prefix=/verif/work/fuzz-artifact-$T- >"$LOG" 2>&1
 code=$?
 rm -rf "$CORPUS"
 if grep -q "^VIOLATION" "$LOG"; then grep -A4 "^VIOLATION" "$LOG" | head -12; exit 1; fi
